@@ -10,7 +10,8 @@ CLAIMS = {
                 "density norms; the weight is cos(thTrN)/cos(thNV)/cos(thTrV); the geometry-only sum is cut only by "
                 "the cone cut, carries no physics factor and is divided by the thrown count; the region predicate is "
                 "(cos>=0 and beta<42); the weight, cut and divisor obligations are evaluated again for a repeated call on "
-                "the same thrown geometry (second detection channel). It does NOT decide the Jacobian identity, the image of the cube or convergence "
+                "the same thrown geometry (second detection channel) and after a second throw on the same object (nothing of the "
+                "previous draw is kept). It does NOT decide the Jacobian identity, the image of the cube or convergence "
                 "(values); a re-expression through trigonometric identities would be reported.",
         "technique": "value-flow graph + polynomial normal form / truth-table predicates / dependence sets",
     },
@@ -38,7 +39,7 @@ CLAIMS = {
                 "complementary bracket masks, paired (x0,y0)/(x1,y1) and the linear formula; the CDF table of a Taus object "
                 "is the file of ITS configured table version, also when another object was constructed before it in "
                 "the same process (two-construction history: state kept between constructions must be keyed on the "
-                "version). It does NOT decide "
+                "version); run as the pipeline runs it, the tau stage writes into none of the arrays it is given. It does NOT decide "
                 "F(z)=u numerically, monotonicity in u or the range of z.",
         "technique": "value-flow graph + length-class typing of masks, truth-table partition coverage, dependence "
                      "roles of interpolation coordinates, polynomial normal form",
@@ -84,7 +85,8 @@ CLAIMS = {
                 "formulas; the atmosphere parameterisations (grammage, density = -1e-5 dX/dz, ozone column) cell by "
                 "cell over the altitude bands; the ring limit floor(D tan theta_c) + 1 of the angular integration; the assembly "
                 "of the two results (ring sized at the step of the largest particle number, density = 0.5 S / ring area x "
-                "squared distance ratio, angle = photon-weighted mean + spread in degrees). It does "
+                "squared distance ratio, angle = photon-weighted mean + spread in degrees; viewing geometry built for the "
+                "reference orbit the rescaling starts from). It does "
                 "NOT decide the 10 % / 0.5 % / 1 % agreement with a double-precision evaluation or finiteness.",
         "technique": "numerical-stability lint and structural obligations on the value-flow graph of the kernel "
                      "closure (pattern rules over resolved calls, effect-free), cross-check against the C++ signature",
@@ -146,7 +148,8 @@ CLAIMS = {
                 "no result handed out by a memoising decorator (lru_cache & co.) is modified in place; per-event outputs keep "
                 "the input event population with no position-dependent index, no batch-wide reduction feeding a "
                 "column and no mixing of populations (two allow-listed constructs with stated reasons); samplers return "
-                "the iterator's allocated operand. Bit-for-bit equality relies on numpy's elementwise determinism "
+                "the iterator's output operand; an events-by-k array is never combined directly with a one-dimensional per-event "
+                "value (axis alignment). Bit-for-bit equality relies on numpy's elementwise determinism "
                 "(trusted).",
         "technique": "effect / alias analysis relative to each entry, two-call history analysis, length-class "
                      "(equivariance) typing",
@@ -194,7 +197,7 @@ CLAIMS = {
                 "all values are stored and returned unchanged; the table owns its columns (a column added with "
                 "copy=False is never modified afterwards); a stage that calls the writer itself does so as its last act "
                 "(nothing in its result and no effect is produced after the writer returned); no handler swallows a "
-                "stage failure. The writer is identified by what it does (the class holding the table mutations). It does NOT decide "
+                "stage failure (handlers whose try guards a store or a file write). The writer is identified by what it does (the class holding the table mutations). It does NOT decide "
                 "atomicity of a single Table.write.",
         "technique": "effect ordering, ownership and control dependence on the inlined graph of compute()",
     },
@@ -262,7 +265,8 @@ CLAIMS = {
                 "formulas cell by cell, zero pressure <-> "
                 "infinite altitude with nothing left undefined in any cell; literal-table sanity "
                 "(equal lengths, monotone heights/pressures, sentinel) and equality with the 1976 US Standard "
-                "Atmosphere reference values. It does NOT decide the 1e-6 round trip or behaviour next to boundaries.",
+                "Atmosphere reference values; no narrowing cast or rounding and no integer-only arithmetic (reciprocal, floor "
+                "division) on an argument-typed value on the value path. It does NOT decide the 1e-6 round trip or behaviour next to boundaries.",
         "technique": "structural value numbering and cell-wise polynomial comparison of the inlined, loop-unrolled "
                      "value graphs of the sibling implementations; literal-table checks against reference constants",
     },
